@@ -32,7 +32,7 @@ ASSUMPTIONS = [
     'callees without loops are rebuilt from the real source in the same namespace and verified as part of their caller (inlined); the composite projections (project_chain_to_cycles, project_chain_to_samples, project_subset_to_samples) and map_subset_to_sample call their callees through contract stubs whose pre-conditions become obligations at the call and whose post-conditions are the ones discharged in the callee\'s own unit',
 ]
 ASSUMPTIONS.append('map_chain_to_samples: np.hstack of a symbolic number of variable-length pieces by an assumed contract (pieces laid end to end: offsets, piece-of-entry function); '
-                   'the result is proved to hold exactly the samples of the chain, each listed once (sound, complete, post:each-sample-listed-once), cycle by cycle in the order of the chain's subset cycles with the samples of each cycle ascending (post:cycle-by-cycle-in-subset-order); that this is the globally ascending list for vectors produced by the library is checked by the bounded stand-in')
+                   'the result is proved to hold exactly the samples of the chain, each listed once (sound, complete, post:each-sample-listed-once), cycle by cycle in the order of the subset cycles of the chain with the samples of each cycle ascending (post:cycle-by-cycle-in-subset-order); that this is the globally ascending list for vectors produced by the library is checked by the bounded stand-in')
 NOT_COVERED = ['map_chain_to_samples: that the listed samples are globally ascending (true for cycle / subset vectors produced by the library, whose cycles follow one another in time) - bounded stand-in only; membership, multiplicity and the cycle-by-cycle order are proved',
                'augmented-cycle maps (outside the property)']
 
